@@ -250,8 +250,15 @@ func c22Ext(rng *verifkit.Rand) c22Stamp {
 }
 
 func c22Judge(run *verifkit.Run, carrier string, st c22Stamp, got time.Time, wit map[string]any) bool {
+	fracEpoch := st.Format == "epoch13" || st.Format == "epoch16" || st.Format == "epoch19"
+	if fracEpoch {
+		run.Count("epoch_events_with_fraction_digits", 1)
+	}
 	if got.Unix() == st.Sec && int64(got.Nanosecond()) == st.Nsec {
 		return true
+	}
+	if fracEpoch {
+		run.Count("epoch_events_with_fraction_digits_inexact", 1)
 	}
 	want := time.Unix(st.Sec, st.Nsec).UTC()
 	diff := got.Sub(want)
@@ -282,7 +289,7 @@ func TestVerif_C22(t *testing.T) {
 	defer b.Close()
 
 	carriers := []string{"header-event-json", "header-event-msgpack", "batch-json-time", "batch-msgpack-time"}
-	run.Cases("stamps", run.N(2500, 60000), func(i int, rng *verifkit.Rand) {
+	run.Cases("stamps", run.N(2500, 300000), func(i int, rng *verifkit.Rand) {
 		carrier := carriers[i%len(carriers)]
 		n := 1
 		if strings.HasPrefix(carrier, "batch") {
